@@ -1039,7 +1039,17 @@ func lenLowerBound(fn *ssa.Function, x ssa.Value, b *ssa.BasicBlock, d int) int6
 	var allowed map[int64]bool
 	for _, g := range dominatingGuards(b) {
 		cmp, ok := g.Cond.(*ssa.BinOp)
-		if !ok || !isLenOfX(cmp.X) {
+		if !ok {
+			continue
+		}
+		// a string compared with "": x != "" is len(x) != 0
+		if cs, isS := constString(cmp.Y); isS && cs == "" && accessPath(cmp.X) == want {
+			if (cmp.Op == token.NEQ) == g.Val {
+				excluded[0] = true
+			}
+			continue
+		}
+		if !isLenOfX(cmp.X) {
 			continue
 		}
 		k, isK := constInt(cmp.Y)
